@@ -563,7 +563,15 @@ func SolveAll(obls []*Obligation, timeoutMs int, need int) {
 				return
 			}
 			id := fmt.Sprintf("q%d_%s", i, sanitize(o.Name))
-			r, _ := Solve(o.Query, id, timeoutMs, o.Models, need)
+			tmo := timeoutMs
+			nd := need
+			if o.ExpectFail { // probes: a quick answer or none
+				nd = 1
+				if tmo > 2000 {
+					tmo = 2000
+				}
+			}
+			r, _ := Solve(o.Query, id, tmo, o.Models, nd)
 			o.Res = r
 		}(i, o)
 	}
